@@ -16,7 +16,7 @@ CFG = dict(
                '(unwrap_or_default), Avg/TopK aggregates and FunctionCall expressions (oracle only).',
     technique='Coq proof over a translator-regenerated guard table + per-run differential correspondence of the partitioned-execution model '
               'with CodeGenerator::execute_with_config (real tuple hashes supplied as a table) and an end-to-end oracle on IQLEngine::set_num_workers',
-    bin='c03', n_quick=180, n_thorough=6000,
+    bin='c03', n_quick=180, n_thorough=3000,
     corr_name='Model/Workers.v + Gen/PartitionGuard.v vs CodeGenerator::execute_with_config / contains_join',
     rule='(1) guard table: 14 tree shapes x {bare, over a join, over an aggregate} through the real contains_join; (2) random IR trees (depth <= 4, all node kinds; '
          'one third restricted to tuple-wise operators so that the partitioned path really runs; one sixth an aggregate on top of a join-free plan) x random typed '
